@@ -214,6 +214,8 @@ class Report:
         self.notes = []
 
     def violation(self, name, payload, summary, no_failing_input=False):
+        # one printable line (a diff of a damaged file can carry NUL bytes)
+        summary = "".join(ch if ch.isprintable() else "?" for ch in summary.replace("\n", " | "))
         path = write_replay(self.pid, name, dict(property=self.pid, summary=summary, no_failing_input_found=no_failing_input, **payload))
         self.violations.append((path, no_failing_input, summary))
 
